@@ -115,3 +115,19 @@ Definition local_to_qid_ptrkey (t : list (key * N)) (n : N) (dev ino : N) : N * 
   | Some q => (q, t, n)
   | None => let v := inc64 n in (v, ((dev, ino), v) :: t, v)
   end.
+
+(** The fallback table as a plain map behind an RWMutex whose miss path does not look again:
+      RLock; q, ok := qids[di]; RUnlock; if ok return q;  Lock; nextQid++; qids[di] = nextQid; Unlock; return nextQid
+    Two atomic steps per call (each critical section is one); the second OVERWRITES ([klookup] finds the newest entry). *)
+Definition fstep1_unchecked (t : list (key * N)) (n : N) (p : fpc) : list (key * N) * N * fpc :=
+  match p with
+  | FStart k => match klookup k t with Some v => (t, n, FDone k v) | None => (t, n, FAdd k) end
+  | FAdd k => let v := inc64 n in ((k, v) :: t, v, FDone k v)
+  | _ => (t, n, p)
+  end.
+Definition fstep_unchecked (s : fstate) (i : nat) : fstate :=
+  match nth_error (f_thr s) i with
+  | None => s
+  | Some p => let '(t, n, p') := fstep1_unchecked (f_tbl s) (f_next s) p in mkF t n (upd i p' (f_thr s))
+  end.
+Definition frun_unchecked (s : fstate) (sched : list nat) : fstate := fold_left fstep_unchecked sched s.
